@@ -307,9 +307,9 @@ async fn one_case(i: usize, k: usize, c: &Value, client: &Client, log: &Log, sen
 		let mine: Vec<Value> = sent_now.iter().filter_map(|t| serde_json::from_str::<Value>(t).ok()).filter(|v| v["method"] == json!(name)).collect();
 		if mine.len() != 1 {
 			probs.push((format!("stub-sent-{}-requests-named-as-expected:{kind}:{ns}", mine.len()), detail("the stub did not put exactly one request with the namespaced name on the wire")));
-		} else if abstract_params(mine[0].get("params")) != abstract_wire(&c["wire"]) {
-			probs.push((format!("wire-differs:{kind}:{pk}"), detail("params text of the generated client differs from Encode")));
 		}
+		// (The shape of the stub's params text is NOT compared with the spec's Encode: the property is about the arguments
+		// the server method receives; a client that, say, omits trailing `None`s is a different but equally valid encoding.)
 	}
 
 	if expect_ok {
